@@ -157,6 +157,8 @@ type Options struct {
 	NoMarkers bool
 	// OnStart is called with the tracee's pid once it is running
 	OnStart func(pid int)
+	// OnEvent is called, with the tracee stopped at the entry of the call, for every recorded event
+	OnEvent func(op int, ev *Event)
 	// StdoutPath: if set, the tracee's stdout+stderr go to this file (readable while it runs)
 	StdoutPath string
 }
@@ -382,6 +384,9 @@ func run(argv []string, opt Options) (*Result, error) {
 				}
 				cur.Events = append(cur.Events, ev)
 				pendingEntry[tid] = ev
+				if opt.OnEvent != nil {
+					opt.OnEvent(cur.Index, ev)
+				}
 				if inj := opt.Inject; inj != nil && !res.InjectHit && inj.Op == cur.Index && inj.Event == ev.Seq {
 					res.InjectHit = true
 					if inj.Name != "" && inj.Name != ev.Name {
